@@ -90,6 +90,15 @@ CHECKS = {
         note="11 concrete netlist structures x symbolic configurations; tolerance 1e-6 after the annealed slack reached 0; the "
              "smoothed no-overlap equation is handled by stated cuts on the real smax; netlist constants are concrete.",
         design="5/C09"),
+    'C10': dict(
+        text="The real glbfloor / optimize_allocation / extract_solution run with GEKKO replaced by a recording contract stub: every "
+             "optimiser variable is a symbolic real within its bounds and, when solve() returns, holds an arbitrary point satisfying "
+             "the posted linear equations. On every returning path z3 proves: returned cells inside the die and non-overlapping (free "
+             "point), ratios in [0,1], no cell over 100%, centres in the die, fixed modules unchanged and sole full owners of their "
+             "cells, movable hard modules translated (mirrored only if flippable) with unchanged shapes.",
+        note="4 (9) concrete instances, threshold/alpha symbolic; solver tolerance and the nonlinear equations are not modelled "
+             "(weakening); outcomes on which glbfloor raises instead of returning are outside the property.",
+        design="5/C10"),
     'C03': dict(
         text="Bounded symbolic model checking of the real create_initial_allocation (Die, Netlist, create_squares, fixed-rectangle "
              "detection, overlap ratios, Allocation constructor) with module rectangle positions/widths symbolic: z3 proves for every "
